@@ -62,5 +62,6 @@ def run(ctx):
 
 
 def replay(path):
-    print("re-run ./check C17")
-    return 2
+    from .. import core as _core
+
+    return _core.generic_replay(PROP if "PROP" in globals() else "C17", path, run, LEVEL)
